@@ -44,6 +44,9 @@ inductive SOp where
   | ext (typ contents : Bytes)
   | sleep (secs : Nat)
   | sleepMs (ms : Nat)
+  | verifyKeys
+  | signerSign (i : Nat) (algo : Bytes)
+  | unsupported
 
 def parseBool (s : String) : Option Bool :=
   if s == "1" then some true else if s == "0" then some false else none
@@ -62,6 +65,9 @@ def parseSOp (e : String) : Option SOp :=
   | ["x", t, c] => do pure (.ext (← ofHex t) (← ofHex c))
   | ["z", n] => do pure (.sleep (← n.toNat?))
   | ["y", n] => do pure (.sleepMs (← n.toNat?))
+  | ["V"] => some .verifyKeys
+  | ["G", i, a] => do pure (.signerSign (← i.toNat?) (← ofHex a))
+  | ["au"] => some .unsupported
   | _ => none
 
 def toOp (ids : List Ident) : SOp → Option Op
@@ -77,6 +83,9 @@ def toOp (ids : List Ident) : SOp → Option Op
   | .ext t c => some (.extension t c)
   | .sleep _ => none
   | .sleepMs _ => none
+  | .verifyKeys => none
+  | .signerSign .. => none
+  | .unsupported => some (.add ⟨[], false, [], 0, false, 0⟩)
 
 def toCOp (ids : List Ident) : SOp → Option COp
   | .add i l c n cm => do pure (.add (← ids[i]?) false cm l c ((List.range n).map extN))
@@ -91,6 +100,17 @@ def toCOp (ids : List Ident) : SOp → Option COp
   | .ext t c => some (.extension t c)
   | .sleep _ => none
   | .sleepMs _ => none
+  | .verifyKeys => none
+  | .signerSign .. => none
+  | .unsupported => do pure (.add (← ids[0]?) true [] 0 false [])
+
+/-- what `SignWithAlgorithm(algo)` on a signer for a key of format `kf` produces (both the keyring's own
+    signers and the client's agentKeyringSigner): `none` = error -/
+def signerAlgo (blob algo : Bytes) : Option Bytes :=
+  let kf := underlyingFormat (blobFormat blob)
+  if algo.isEmpty || algo == kf then some kf
+  else if kf == kRSA && (algo == kRSA256 || algo == kRSA512) then some algo
+  else none
 
 /-- run a sequence: the clock advances by one tick per op and by `secs * tps` on a sleep -/
 def runSeq (ids : List Ident) (wire : Bool) : KR → Int → List SOp → Option (KR × List String)
@@ -99,6 +119,30 @@ def runSeq (ids : List Ident) (wire : Bool) : KR → Int → List SOp → Option
     match op with
     | .sleep n => (runSeq ids wire r (t + n * tps + 1) rest).map fun (r', o) => (r', "z" :: o)
     | .sleepMs n => (runSeq ids wire r (t + n * (tps / 1000) + 1) rest).map fun (r', o) => (r', "z" :: o)
+    | .verifyKeys =>
+      -- List, then Sign(k, data) + k.Verify for every listed *Key
+      let (r', res) := if wire then wireStep ids r t .list else r.step t .list
+      let out := match res with
+        | .keys ks => "kv:" ++ (if ks.isEmpty then "-" else ",".intercalate (ks.map fun k =>
+            match (r'.sign t k.1 0).2 with
+            | .sig b f => identIdx ids b ++ ":" ++ asciiStr f
+            | _ => identIdx ids k.1 ++ ":err"))
+        | other => showRes ids other
+      (runSeq ids wire r' (t + 1) rest).map fun (r'', o) => (r'', out :: o)
+    | .signerSign i algo =>
+      match ids[i]? with
+      | none => none
+      | some id =>
+        let (r', res) := if wire then wireStep ids r t .signers else r.step t .signers
+        let out := match res with
+          | .signers bs =>
+            if bs.contains id.blob then
+              match signerAlgo id.blob algo with
+              | some f => s!"sig:{i}:{asciiStr f}"
+              | none => "err"
+            else "none"
+          | other => showRes ids other
+        (runSeq ids wire r' (t + 1) rest).map fun (r'', o) => (r'', out :: o)
     | _ =>
       if wire then
         match toCOp ids op with
@@ -138,7 +182,7 @@ def handle (line : String) : String :=
     match o.cmd with
     | "seq" =>
       let mode := o.str "mode"
-      if mode != "direct" && mode != "wire" && mode != "wirep" then "bad-op" else
+      if mode != "direct" && mode != "wire" && mode != "wirep" && mode != "fwda" && mode != "fwdr" then "bad-op" else
       match (o.get? "ops").bind parseOps with
       | none => "bad-op"
       | some ops =>
@@ -169,10 +213,15 @@ def handle (line : String) : String :=
         match toCOp ids sop with
         | none => "bad-op"
         | some c =>
-          match c, c.request with
-          | _, none => "none"
-          | .add i .., some req => s!"{req.headD 0}:{toHex (req.drop (1 + i.prefix_.length))}"
-          | _, some req => toHex req
+          let reqS := match c, c.request with
+            | _, none => "none"
+            | .add i .., some req => s!"{req.headD 0}:{toHex (req.drop (1 + i.prefix_.length))}"
+            | _, some req => toHex req
+          -- the client's reading of an arbitrary reply (rep=) from a foreign agent
+          match o.hex? "rep", c.request with
+          | some rep, some _ => reqS ++ " " ++ showRes ids (c.decode (.bytes rep))
+          | some _, none => reqS ++ " err"
+          | none, _ => reqS
     | _ => "bad-op"
 
 end XC.C43
